@@ -103,6 +103,35 @@ CHECKS["C20"] = dict(
           "textual preprocessor only); nvcc's inline-asm contract (distinct virtual registers for outputs and inputs, program "
           "order of volatile asm, predicate scope across asm statements); gl64_device::W keeps its initialiser."))
 
+CHECKS["C06"] = dict(
+    text=("PARTIAL. The three permutations (scalar, AVX2, two-state AVX512) and all constant tables are regenerated into Lean "
+          "from the current source on every run (the 22 partial rounds as a fold over a lifted loop body). Proved (Props/C06.lean): "
+          "hash = first four elements of the full result in all three backends; the table side conditions the vector code relies on "
+          "(all round constants canonical, M_ entries < 2^8, M_/P_ are the transposes of M/P, index bounds of S and C). NOT yet "
+          "proved: den∘backend = spec∘den for all 2^768 states; that equality is established by executing the generated models "
+          "against the compiled functions and against an independent Python reference on boundary-valued states (incl. the suite's "
+          "known-answer inputs), which also is the failing-input search. The lane-level ingredients are theorems (C01,C02,C11,C13,C14)."),
+    technique="Lean 4: translated model + kernel-checked table side conditions; backend=spec by correspondence (partial proof)",
+    design="§4 C06", note=NOTE_BASE)
+CHECKS["C07"] = dict(
+    text=("Machine-checked theorem (Props/C07.lean): for EVERY permutation and EVERY input length the loop model of linear_hash "
+          "(remaining counter, capacity feedback, zero padding; Model/Sponge.lean) equals the rate-8/capacity-4 sponge specification, "
+          "and inputs of at most four elements pass through zero-padded; digest length; variant agreement. PARTIAL for the "
+          "two-at-a-time AVX512 variant (pass-through proved, interleaved loop by correspondence). Tie: correspondence of the models "
+          "(instantiated with the translated permutations) with linear_hash_seq / linear_hash / linear_hash_avx512 for every length "
+          "0..40, 63..65, 127..129 (thorough: 0..300, 1000) with exact-size redzoned inputs."),
+    technique="Lean 4 proof by induction over the block loop of a hand-written model, generic in the permutation + correspondence",
+    design="§4 C07", note=NOTE_BASE)
+CHECKS["C08"] = dict(
+    text=("Machine-checked theorems (Props/C08.lean) about the Merkle model (leaf digests, then level by level the hashes of adjacent "
+          "digest pairs), generic in leaf and node hash: for every power-of-two row count incl. one the buffer size equals the "
+          "element-count helper = 4(2·rows−1), the leaves come first, the root is the last four elements = recursive pairwise hash; "
+          "backends agree when their hashes agree; the batched leaf. Tie: correspondence over rows x cols x dim x batch x backend "
+          "(seq/avx/avx512/default wrapper) x threads, every buffer element compared, forked child with redzones. D5/D11 (AVX512 "
+          "builders out of bounds for one row) found with replays and fixed."),
+    technique="Lean 4 proof by induction over levels of a hand-written model + correspondence over the shape grid",
+    design="§4 C08", note=NOTE_BASE)
+
 NOT_YET = {
 }
 
